@@ -1,6 +1,8 @@
 """C14: the WebSocket reader enforces the RFC 6455 framing rules and the read limit (spec/ws/WsReader.tla)."""
 import os
 
+from lib import vlib
+
 QUICK = ["framing", "limit", "seq", "sizes", "header"]
 THOROUGH = ["framing", "framing4", "limit", "seq", "sizes", "header"]
 
@@ -12,8 +14,10 @@ def run(ctx):
                 "/ 2^64-1 lengths, depth 3; seq: opcode x FIN, depth 4; sizes: 7/16/64-bit forms with real payloads; header: the full product "
                 "opcode x FIN x RSV x mask x length class as first frame) for both roles, each with the reference receiver's outcome after every "
                 "step; every behaviour is rendered to bytes from the specification's layout, fed to a real websocket.Conn, ended after the last "
-                "frame and at offsets inside the last frame, under 2-4 API/segmentation variants; distinct = distinct behaviour")
-    ctx.exhaustive = True
+                "frame and at offsets inside the last frame (prefixes are behaviours too, so this is every frame of every behaviour), under 2-4 "
+                "API/segmentation/buffer variants; plus random long behaviours of a mostly conformant peer (TLC simulation, depth 30); "
+                "distinct = distinct behaviour")
+    ctx.exhaustive = (t == "quick")   # thorough adds thousands of random long behaviours (TLC simulation)
     ctx.assumptions += [
         "compression not negotiated (RSV1 is a reserved bit); with compression negotiated nothing is judged",
         "frames use the minimal length form (RFC 6455 5.2 obliges the sender; what a receiver does with other forms is not judged)",
@@ -37,9 +41,18 @@ def run(ctx):
     cases = os.path.join(ctx.out, "cases.ndjson")
     for f in (QUICK if t == "quick" else THOROUGH):
         ctx.tlc("ws", "Gen_WsReader", "Gen_WsReader_%s.%s.cfg" % (f, t), cases_to=cases, timeout=1500, count_states=False)
-    if t == "thorough":
-        ctx.exhaustive = False
-        ctx.tlc("ws", "Gen_WsReader", "Gen_WsReader_sim.cfg", cases_to=cases, simulate=2000, depth=40, workers=1, timeout=900)
+    # random long behaviours of a mostly conformant peer (one behaviour per trace, emitted when the stream ends)
+    ctx.tlc("ws", "Gen_WsReader", "Gen_WsReader_sim.cfg", cases_to=cases, simulate=(120 if t == "quick" else 4000), depth=40,
+            workers=1, timeout=900)
     res = ctx.replay("reader", cases, timeout=3000)
-    ctx.judge("reader", cases, res)
+    fails = ctx.judge("reader", cases, res)
     ctx.notes["connections_driven"] = sum(int(r.get("info") or 0) for r in res)
+    # binding self-test: behaviours generated from a specification with two rules flipped (top-bit lengths accepted as empty
+    # frames, pongs without payload) must be rejected by the replay of the real library; otherwise nothing binds spec and code
+    st = os.path.join(ctx.out, "selftest.ndjson")
+    ctx.tlc("ws", "Gen_WsReader", "Gen_WsReader_selftest.cfg", cases_to=st, count_states=False)
+    sres = ctx.replay("reader", st)
+    rejected = sum(1 for r in sres if not r["ok"])
+    ctx.notes["selftest"] = {"cases": len(sres), "rejected": rejected}
+    if rejected == 0 and not fails:
+        raise vlib.Broken("binding self-test: %d behaviours of a specification with two wrong rules were all accepted by the replay" % len(sres))
